@@ -312,7 +312,7 @@ class Run:
         self.ctx_count += 1
         cid = f'x{self.ctx_count}'
         parent = fr.ctx if fr is not None else None
-        if parent is None or (mode == 'thread' and not self.thread_inherits):
+        if parent is None or (mode == 'thread' and not self.thread_inherits) or mode == 'taskfresh':
             base = dict(DEFAULT)
         else:
             base = dict(self.stacks[parent][-1])
@@ -586,6 +586,8 @@ class Run:
                     self.log(fr, 'enter', ev)
                     if len(stack) - 1 >= 3:
                         self.probe('depth_ge_3')
+                        if len(stack) - 1 >= 10:
+                            self.probe('depth_ge_10')
                     self.expect(fr, 'S', c_obs, new, {'what': 'as-target', 'uid': uid})
                     self.expect(fr, 'S', inst_obs, new, {'what': 'instance', 'uid': uid})
                     await self.yp(fr, 'enter')
@@ -610,6 +612,14 @@ class Run:
                     self.log(fr, 'error', {'clause': 'N', 'site': where, 'why': exc_text(exc)})
                     self.violate(fr, 'N', {'site': where, 'why': exc_text(exc), 'uid': uid})
             how = exc_label(exc)
+            if entered:
+                try:
+                    n = getattr(exc, '_sim_unwound', 0) + 1
+                    exc._sim_unwound = n  # type: ignore[attr-defined]
+                    if n in (2, 5, 20):
+                        self.probe(f'one_exception_unwound_{n}_blocks')
+                except Exception:  # pragma: no cover
+                    pass
             raise
         finally:
             if not self.aborting:
@@ -1039,10 +1049,16 @@ class Run:
 
     # -- SPAWN / JOIN -----------------------------------------------------------------------
     def do_spawn(self, fr: Frame, stmt: list) -> None:
-        _, cid, body = stmt
+        cid, body = stmt[1], stmt[2]
+        alt = len(stmt) > 3 and bool(stmt[3])
         if cid in self.actors:
             raise HarnessError(f'actor {cid} spawned twice')
-        mode = 'thread' if self.world == 'thread' else 'task'
+        if self.world == 'thread':
+            # alt: Thread(target=copy_context().run, ...) -- the thread inherits a snapshot
+            mode = 'threadctx' if alt else 'thread'
+        else:
+            # alt: create_task(..., context=contextvars.Context()) -- an empty context: defaults
+            mode = 'taskfresh' if alt else 'task'
         ctx = self.new_ctx(fr, mode, cid)
         child = Actor(self, cid, body, ctx, fr.actor)
         self.actors[cid] = child
@@ -1051,10 +1067,17 @@ class Run:
             self.probe('spawn_inside_block_' + mode)
         if self.world == 'thread':
             child.slot = self.sched.register(cid)
-            child.thread = threading.Thread(target=self.thread_main, args=(child,), name=f'sim-a{cid}', daemon=True)
+            if alt:
+                snapshot = contextvars.copy_context()
+                child.thread = threading.Thread(target=snapshot.run, args=(self.thread_main, child), name=f'sim-a{cid}', daemon=True)
+            else:
+                child.thread = threading.Thread(target=self.thread_main, args=(child,), name=f'sim-a{cid}', daemon=True)
             child.thread.start()
         else:
-            child.task = self.loop.create_task(self.task_main(child), name=f'sim-a{cid}')
+            if alt:
+                child.task = self.loop.create_task(self.task_main(child), name=f'sim-a{cid}', context=contextvars.Context())
+            else:
+                child.task = self.loop.create_task(self.task_main(child), name=f'sim-a{cid}')
             self.tasks.append(child.task)
 
     async def do_join(self, fr: Frame, stmt: list) -> None:
